@@ -35,6 +35,8 @@ type Built struct {
 	Faulty  []*FaultyRuleList          // nil entries for unwrapped lists
 	paths   []string
 	extra   []*os.File
+	plans   []ListPlan
+	clone   bool
 }
 
 var fileSeq int
@@ -42,7 +44,7 @@ var fileSeq int
 // Build materialises plans under dir.  With forceString every list is
 // in-memory and unwrapped: the reference configuration.
 func Build(plans []ListPlan, dir string, forceString bool) (*Built, error) {
-	b := &Built{}
+	b := &Built{plans: plans}
 	for _, p := range plans {
 		var l filterlist.RuleList
 		var fl *filterlist.FileRuleList
@@ -85,6 +87,47 @@ func Build(plans []ListPlan, dir string, forceString bool) (*Built, error) {
 	}
 	b.Storage = s
 	return b, nil
+}
+
+// Clone builds a NEW storage with new list objects (and new descriptors) over
+// the same bytes: file-backed lists reopen the files of b.  This is the
+// "fresh engine" configuration: same plan, no history.
+func (b *Built) Clone() (*Built, error) {
+	c := &Built{plans: b.plans, clone: true}
+	fi := 0
+	for i, p := range b.plans {
+		var l filterlist.RuleList
+		var fl *filterlist.FileRuleList
+		if b.Files[i] != nil {
+			path := b.paths[fi]
+			fi++
+			if p.BufSize == 0 {
+				var err error
+				if fl, err = filterlist.NewFileRuleList(p.ID, path, p.IgnoreCosmetic); err != nil {
+					return nil, err
+				}
+			} else {
+				f, err := os.Open(path)
+				if err != nil {
+					return nil, err
+				}
+				fl = filterlist.VerifNewFileRuleList(p.ID, f, p.IgnoreCosmetic, p.BufSize)
+			}
+			l = fl
+		} else {
+			l = &filterlist.StringRuleList{ID: p.ID, RulesText: p.Text, IgnoreCosmetic: p.IgnoreCosmetic}
+		}
+		c.Lists = append(c.Lists, l)
+		c.Files = append(c.Files, fl)
+		c.Faulty = append(c.Faulty, nil)
+	}
+	s, err := filterlist.NewRuleStorage(c.Lists)
+	if err != nil {
+		c.Cleanup()
+		return nil, err
+	}
+	c.Storage = s
+	return c, nil
 }
 
 // Cleanup closes and removes everything the build created.
